@@ -80,6 +80,15 @@ IDUNDER = {ast.Add: "__iadd__", ast.Sub: "__isub__", ast.Mult: "__imul__", ast.D
 _MISSING = object()
 
 
+class PendingCache:
+    """state of a private cache field the fixtures do not know, not yet looked at: 'as __init__ leaves it, or as the lazy
+    filler computes it from the object's state' -- settled (both ways explored) when the field is first read or the object is
+    first stored into"""
+
+    def __init__(self, v0, filler):
+        self.v0, self.filler = v0, filler
+
+
 def _plain(v):
     """a plain Python value (for which a TypeError / AttributeError is real behaviour, not a gap of the model)"""
     return isinstance(v, (int, float, str, bytes, tuple, list, dict, set, frozenset, type(None), bool, range, Poly))
@@ -599,7 +608,7 @@ class Interp:
 
     def lazy_value(self, obj, name, v0, filler):
         """what the filler stores in self.<name> from the object's CURRENT visible state (on a shallow copy), or _MISSING"""
-        cp = Obj(obj.cls, dict(obj.fields))
+        cp = Obj(obj.cls, {k: (x.v0 if isinstance(x, PendingCache) else x) for k, x in obj.fields.items()})
         cp.fields[name] = v0
         cp.cf = {}
         try:
@@ -622,29 +631,60 @@ class Interp:
                 seen.add(id(v))
                 for x in list(v.fields.values()):
                     walk(x)
+                if hasattr(v, "cf"):
+                    return
                 names = self.unknown_private_fields(v)
                 if not names:
+                    v.cf = {}
                     return
                 info = {}
                 for f in names:
                     v0 = self.init_constant(v.cls, f)
                     if v0 is _MISSING:
-                        raise ModelError("the fixture of %s does not define the field '%s' that the class assigns "
-                                         "(and __init__ does not store a constant in it)" % (v.cls.name, f))
-                    v.fields[f] = v0
-                    info[f] = (v0, self.lazy_filler(v.cls, f))
+                        continue      # not a cache by this rule: stays missing (reading it is a fixture gap, reported where it is read)
+                    filler = self.lazy_filler(v.cls, f)
+                    info[f] = (v0, filler)
+                    v.fields[f] = PendingCache(v0, filler) if filler is not None else v0
                 v.cf = info
-                for f, (v0, filler) in info.items():
-                    if filler is not None and self.choose():
-                        val = self.lazy_value(v, f, v0, filler)
-                        if val is not _MISSING:
-                            v.fields[f] = val
             elif isinstance(v, (list, tuple)):
                 for x in v:
                     walk(x)
             elif isinstance(v, dict):
                 for x in v.values():
                     walk(x)
+        walk(values)
+
+    def settle_caches(self, v, only=None):
+        """decide the pending cache fields of object v now (from its current state)"""
+        for f, val in list(v.fields.items()):
+            if isinstance(val, PendingCache) and (only is None or f == only):
+                v.fields[f] = val.v0
+                if self.choose():
+                    r = self.lazy_value(v, f, val.v0, val.filler)
+                    if r is not _MISSING:
+                        v.fields[f] = r
+
+    def recohere(self, values):
+        """a callee was replaced by its contract, which says nothing about the private cache fields the fixtures do not know
+        (complete_fixture): by the callee's own cache-coherence postcondition each of them is now as __init__ leaves it or as
+        the lazy filler computes it from the object's state AFTER the call -- both continuations are explored"""
+        seen = set()
+
+        def walk(v, depth=0):
+            if isinstance(v, Obj):
+                if id(v) in seen or depth > 4:
+                    return
+                seen.add(id(v))
+                for f, (v0, filler) in list(getattr(v, "cf", {}).items()):
+                    v.fields[f] = PendingCache(v0, filler) if filler is not None else v0
+                for x in list(v.fields.values()):
+                    walk(x, depth + 1)
+            elif isinstance(v, (list, tuple)):
+                for x in v:
+                    walk(x, depth + 1)
+            elif isinstance(v, dict):
+                for x in v.values():
+                    walk(x, depth + 1)
         walk(values)
 
     def truth(self, v):
@@ -765,7 +805,9 @@ class Interp:
         qn = f.qualname
         self.trace_calls.append(qn)
         if qn in self.contracts and qn not in self.no_contract:
-            return self.contracts[qn](self, list(args), dict(kwargs))
+            r = self.contracts[qn](self, list(args), dict(kwargs))
+            self.recohere([args, kwargs, r])
+            return r
         node = f.node
         mod = self.modules[f.module.split(".")[-1]]
         local = {}
@@ -855,6 +897,8 @@ class Interp:
     def getattr(self, v, name):
         if isinstance(v, Obj):
             if name in v.fields:
+                if isinstance(v.fields[name], PendingCache):
+                    self.settle_caches(v, only=name)
                 return v.fields[name]
             if name == "__dict__":
                 return v.fields
@@ -879,6 +923,11 @@ class Interp:
             if not getattr(v, "constructed", False) and self.class_assigns(v.cls, name):
                 # the object was assembled field by field by a verification fixture, not by its constructor: a field the
                 # class itself assigns somewhere (a new cache, say) is missing from the FIXTURE, not from the object
+                if not getattr(v, "dirty", False) and not hasattr(v, "cf") and name.startswith("_") and not name.startswith("__"):
+                    # ... and nothing has been stored into the object yet: it is still in its pre-state, complete it now
+                    self.complete_fixture([v])
+                    if name in v.fields:
+                        return v.fields[name]
                 raise ModelError("the fixture of %s does not define the field '%s' that the class assigns" % (v.cls.name, name))
             raise PyRaise("AttributeError", "'%s' object has no attribute '%s'" % (v.cls.name, name))
         if isinstance(v, ClassInfo):
@@ -975,12 +1024,19 @@ class Interp:
 
     def setattr(self, v, name, val):
         if isinstance(v, Obj):
+            if not hasattr(v, "cf") and not getattr(v, "constructed", False) and not getattr(v, "dirty", False) and v.cls is not None:
+                # first store into an object assembled by a fixture: settle the private fields the fixture does not know
+                # while the object is still in its pre-state
+                self.complete_fixture([v])
+            if getattr(v, "cf", None) and any(isinstance(x, PendingCache) for x in v.fields.values()):
+                self.settle_caches(v)         # the object is about to change: its caches are what they are NOW
             s = v.cls.find("setters", name, self.classes)
             if s is not None:
                 fd, owner = s
                 self.call_func(FuncVal(fd, owner.module, owner, name=fd.name + ".setter"), [v, val], {})
                 return
             v.fields[name] = val
+            v.dirty = True
             return
         if isinstance(v, (Delayed,)):
             setattr(v, name, val)
@@ -1857,6 +1913,9 @@ def deep_copy(x, memo):
         memo[id(x)] = o
         for k, v in x.fields.items():
             o.fields[k] = deep_copy(v, memo)
+        for extra in ("cf", "constructed", "dirty", "lazy_fields"):      # bookkeeping of the verification fixtures travels with the copy
+            if hasattr(x, extra):
+                setattr(o, extra, getattr(x, extra))
         return o
     if isinstance(x, Arr):
         return x.copy()
